@@ -151,5 +151,5 @@ def write_json(path, obj):
     os.makedirs(os.path.dirname(path), exist_ok=True)
     tmp = path + '.tmp'
     with open(tmp, 'w') as f:
-        json.dump(jsonable(obj), f, indent=1, ensure_ascii=False)
+        json.dump(jsonable(obj), f, indent=1, ensure_ascii=True)
     os.replace(tmp, path)
